@@ -355,6 +355,158 @@ def _s4(program, res):
             res.fail_at("C13-S4", w, "nary-nonassociative", "a non-associative operator is collected into an n-ary expression", same[0])
 
 
+def _s6(program, res):
+    """Tree-shape agreement between grammar and walker: lark replaces a `?rule` node that has a single child by that child, so
+    a walker branch may unpack `<child>.children` only where the grammar puts a rule that always keeps its own node, or after
+    testing the child's kind."""
+    gnode = program.const("python3_lark", "grammar")
+    try:
+        import lark
+        parser = lark.Lark(gnode.value, parser="lalr", start="test")
+    except Exception as e:
+        raise AnalysisError(f"grammar does not load: {type(e).__name__}: {e}")
+    inlinable = {str(r.origin.name) for r in parser.rules if r.options.expand1} | {str(r.origin.name) for r in parser.rules if str(r.origin.name).startswith("_")}
+    kinds = {str(r.alias or r.origin.name) for r in parser.rules}
+    by_kind: Dict[str, List[List[str]]] = {}
+    for r in parser.rules:
+        by_kind.setdefault(str(r.alias or r.origin.name), []).append([str(s.name) for s in r.expansion if not s.is_term])
+    w = program.func("parse_by_lark", "_walk_lark_tree")
+    inner = [n for n in ast.walk(w.node) if isinstance(n, ast.FunctionDef) and n.name == "_r_walk_lark_tree"]
+    if not inner:
+        raise AnalysisError("anchor vanished: _walk_lark_tree._r_walk_lark_tree")
+    fn = inner[0]
+    tree_param = fn.args.args[0].arg
+    n_sites = 0
+    for br in ast.walk(fn):
+        if not (isinstance(br, ast.If) and isinstance(br.test, ast.Compare) and unparse(br.test.left) == f"{tree_param}.data"):
+            continue
+        try:
+            handled = ast.literal_eval(br.test.comparators[0])
+        except Exception:
+            continue
+        handled = [handled] if isinstance(handled, str) else list(handled)
+        # names bound to a child of the node in this branch
+        child_of: Dict[str, int] = {}
+        for st in ast.walk(br):
+            if isinstance(st, ast.Assign) and len(st.targets) == 1 and isinstance(st.targets[0], ast.Name):
+                m = pat.match(f"{tree_param}.children[__I]", st.value)
+                if m is not None and m["__I"].isdigit():
+                    child_of[st.targets[0].id] = int(m["__I"])
+        parents = {c: p_ for p_ in ast.walk(br) for c in ast.iter_child_nodes(p_)}
+        for a in ast.walk(br):
+            if not (isinstance(a, ast.Attribute) and a.attr == "children"):
+                continue
+            pos = None
+            m = pat.match(f"{tree_param}.children[__I]", a.value)
+            if m is not None and m["__I"].isdigit():
+                pos = int(m["__I"])
+            elif isinstance(a.value, ast.Name) and a.value.id in child_of:
+                pos = child_of[a.value.id]
+            if pos is None:
+                continue
+            n_sites += 1
+            child_txt = unparse(a.value)
+            # is the unpacking under a test of this child's kind?
+            guarded = None
+            x = a
+            while x in parents and x is not br:
+                px = parents[x]
+                # (the else side of a kind test counts only where the child's first grandchild is read as a *name* via str(...): the
+                # function-call form reads the callee there, and a callee that is not a bare name gives an operator name no
+                # implementation table holds, so the text is refused; walking grandchildren as elements there is not covered)
+                as_name = isinstance(parents.get(a), ast.Subscript) and isinstance(parents.get(parents.get(a)), ast.Call) \
+                    and dotted_name(parents[parents[a]].func) == "str"
+                if isinstance(px, ast.If) and (x in px.body or (x in px.orelse and as_name)) or isinstance(px, ast.IfExp) and x is px.body:
+                    if f"{child_txt}.data" in unparse(px.test):
+                        guarded = px.test
+                        break
+                x = px
+            risky = []
+            for k in handled:
+                for nts in by_kind.get(k, []):
+                    if pos < len(nts) and nts[pos] in inlinable:
+                        risky.append((k, nts[pos]))
+            if not risky:
+                res.ok("C13-S6", f"{'/'.join(handled)}: child {pos} is always a node of its own rule; unpacking its children is safe")
+                continue
+            if guarded is not None:
+                tested = {c.value for c in ast.walk(guarded) if isinstance(c, ast.Constant) and isinstance(c.value, str)}
+                bad = sorted(t for t in tested if t not in kinds or t in inlinable and t not in {str(r.alias) for r in parser.rules if r.alias})
+                if bad:
+                    res.fail_at("C13-S6", w, f"tests-kind-the-grammar-never-produces:{bad[0]}",
+                                f"the {'/'.join(handled)} branch unpacks child {pos} after testing for kind(s) {bad}, which the grammar never leaves as a node", a)
+                else:
+                    res.ok("C13-S6", f"{'/'.join(handled)}: child {pos} is unpacked only after its kind is tested ({sorted(tested)})")
+                continue
+            k, nt = risky[0]
+            res.fail_at("C13-S6", w, f"unpacks-inlined-child:{k}",
+                        f"the branch for {handled} unpacks `{child_txt}.children` as the elements, but for `{k}` the grammar puts `?{nt}` there, which lark replaces by its only "
+                        f"child: for a one-element {k} the child IS the element, and the element's own sub-tree is unpacked instead — x.is_in([2 ** 3]) becomes is_in([2, 3]), "
+                        f"[True] becomes [], [1 if 2 else 3] becomes [1, 2, 3]", a)
+    if n_sites == 0:
+        raise AnalysisError("_r_walk_lark_tree: no branch unpacks a child's children (collection branches not found)")
+
+
+def printable_ops_rule(program, res, rule="C13-S7"):
+    """every operator a Term method can put into an expression tree prints as text the walker accepts again"""
+    w = program.func("parse_by_lark", "_walk_lark_tree")
+    refused: Dict[str, str] = {}
+    for d in ast.walk(w.node):
+        if isinstance(d, ast.Assign) and len(d.targets) == 1 and isinstance(d.targets[0], ast.Name) and isinstance(d.value, ast.Dict):
+            # the dictionary consulted by the branch that raises "bitwise operation ..., not currently supported"
+            uses = [r for r in ast.walk(w.node) if isinstance(r, ast.Raise) and d.targets[0].id in unparse(r)]
+            if uses:
+                for k, v in zip(d.value.keys, d.value.values):
+                    if isinstance(k, ast.Constant) and isinstance(v, ast.Constant) and isinstance(v.value, str):
+                        refused[k.value] = v.value.split(" ")[0]
+    if not refused:
+        res.ok(rule, "the walker refuses no operator level of the grammar")
+        return
+    tokens = set(refused.values())
+    term = program.cls("expr_rep", "Term")
+    builders: Dict[str, List[str]] = {}
+    for mname, m in sorted(term.methods.items()):
+        for c in ast.walk(m.node):
+            if isinstance(c, ast.Call) and isinstance(c.func, ast.Attribute) and c.func.attr in ("__op_expr__", "__rop_expr__") and c.args \
+                    and isinstance(c.args[0], ast.Constant) and c.args[0].value in tokens:
+                builders.setdefault(c.args[0].value, []).append(mname)
+    for tok in sorted(tokens):
+        if tok in builders:
+            ms = builders[tok]
+            m0 = term.methods[ms[0]]
+            res.fail(rule, "expr_rep:Term", f"builds-operator-the-parser-refuses:{tok}",
+                     f"Term.{'/'.join(ms)} build the inline operator `{tok}`, which prints as `a {tok} b`; the walker refuses that text "
+                     f"(\"bitwise operation ... not currently supported\"): a pipeline built with the Python operator — or from the text "
+                     f"a.{ms[0]}(b), which the parser does accept — prints text that can not be parsed back", m0.file, m0.node.lineno)
+        else:
+            res.ok(rule, f"no Term method builds `{tok}`, which the walker refuses")
+
+
+def printable_literals_rule(program, res, rule="C13-S7", column_names=False):
+    """what Value / ColumnReference print must be text the parser reads back as the same thing"""
+    vi = program.method("expr_rep", "Value", "__init__", inherited=False)
+    vp = program.method("expr_rep", "Value", "to_python", inherited=False)
+    both = unparse(vi.node) + unparse(vp.node)
+    if any(k in both for k in ("isfinite", "isnan", "isinf")):
+        res.ok(rule, "non-finite float constants are tested for where constants are admitted or printed")
+    else:
+        res.fail_at(rule, vp, "non-finite-float-printed-as-bare-name",
+                    "Value admits every float and prints it with repr: inf / -inf / nan print as the bare names `inf`, `nan`, which the parser reads as column "
+                    "references (NameError: unknown symbol, or — with a column of that name — a different tree). `a < 1e400` parses, prints `a < inf` and does not parse again")
+    if not column_names:
+        return  # a *parsed* expression holds only names the NAME token matched; free-form names concern built pipelines (C12)
+    cr = program.cls("expr_rep", "ColumnReference")
+    ci, cp = cr.methods["__init__"], cr.methods["to_python"]
+    bare = any(isinstance(c, ast.Call) and dotted_name(c.func) == "PythonText" and c.args and unparse(c.args[0]) == "self.column_name" for c in ast.walk(cp.node))
+    checked = "isidentifier" in unparse(ci.node) or "isidentifier" in unparse(cp.node)
+    if bare and not checked:
+        res.fail_at(rule, cp, "column-name-printed-bare-without-identifier-check",
+                    "ColumnReference prints its name bare into expression text and no constructor requires the name to be an identifier: with a column called "
+                    "'x-y' the expression col('x-y') + 1 prints `x-y + 1`, which reads back as x minus y plus 1 (other values, silently); 'my col' prints text that does not parse")
+    else:
+        res.ok(rule, "column names are printed bare only after an identifier check")
+
+
 def run(program, res, tier):
     res.rule("C13-S1", "token→method tables equal Python's operator→special-method table")
     res.rule("C13-S2", "token → Term method → Expression op → token round trip; reflected methods swap operands")
@@ -364,6 +516,11 @@ def run(program, res, tier):
     _s1_s2(program, res)
     _s3(program, res)
     _s4(program, res)
+    res.rule("C13-S6", "the walker unpacks a child's children only where the grammar guarantees the child keeps its own node (or after testing its kind)")
+    _s6(program, res)
+    res.rule("C13-S7", "every operator a Term method can build prints as text the walker accepts")
+    printable_ops_rule(program, res)
+    printable_literals_rule(program, res)
     # S5: printing keeps the grouping the parser needs (shared with C12)
     from ..report import Relabel
     from . import c12
